@@ -98,3 +98,94 @@ func PPCoreOf(p any) *ppCore {
 	}
 	return nil
 }
+
+// LifePP is a plain component post-processor that is itself a component with a lifecycle (Init /
+// AfterPropertiesSet are logged under its name) and can be a dependency of ordinary components.
+type LifePP struct {
+	processors.DefaultComponentPostProcessor
+	Nm  string
+	run *Run
+}
+
+func (p *LifePP) Naming() string { return p.Nm }
+func (p *LifePP) Bind(r *Run)    { p.run = r }
+func (p *LifePP) A()             {}
+func (p *LifePP) Init() error {
+	p.run.Log.Add("init", p.Nm)
+	return nil
+}
+func (p *LifePP) AfterPropertiesSet() error {
+	p.run.Log.Add("aps", p.Nm)
+	return nil
+}
+
+// LazyLifePP: the same, marked LazyInit.
+type LazyLifePP struct{ LifePP }
+
+func (p *LazyLifePP) LazyInit() {}
+
+// DepPP: user post-processors that have injection points and config values of their own (they are
+// created while the post-processor chain is being built, in the chain's sorted order).
+type depCore struct {
+	processors.DefaultInstantiationAwareComponentPostProcessor
+	Nm  string
+	Ord int
+	Dep IA     `wire:",required=false"`
+	All []IB   `wire:",required=false"`
+	V   string `value:"${dep.v:none}"`
+}
+
+func (p *depCore) Naming() string { return p.Nm }
+
+// Describe renders what the processor received.
+func (p *depCore) Describe() string {
+	dep := "nil" // which of several tied candidates arrives may vary; whether one arrives may not
+	if p.Dep != nil {
+		dep = "set"
+	}
+	return p.Nm + ":dep=" + dep + ",all=" + itoa(len(p.All)) + ",v=" + p.V
+}
+
+func itoa(i int) string {
+	if i == 0 {
+		return "0"
+	}
+	s := ""
+	for i > 0 {
+		s = string(rune('0'+i%10)) + s
+		i /= 10
+	}
+	return s
+}
+
+type DepPPUnordered struct{ depCore }
+type DepPPOrdered struct{ depCore }
+
+func (p *DepPPOrdered) Order() int { return p.Ord }
+
+type DepPPPriority struct{ depCore }
+
+func (p *DepPPPriority) Order() int { return p.Ord }
+func (p *DepPPPriority) Priority()  {}
+
+type Describer interface{ Describe() string }
+
+func NewDepPP(class int, name string, ord int) any {
+	c := depCore{Nm: name, Ord: ord}
+	switch class {
+	case 1:
+		return &DepPPOrdered{c}
+	case 2:
+		return &DepPPPriority{c}
+	}
+	return &DepPPUnordered{c}
+}
+
+// Zero-size component types with custom names (two distinct zero-size values may share an address).
+type ZeroA struct{}
+type ZeroB struct{}
+
+func (*ZeroA) Naming() string { return "zero-name" }
+func (*ZeroB) Naming() string { return "zero-name" }
+func (*ZeroA) A()             {}
+func (*ZeroB) A()             {}
